@@ -37,6 +37,7 @@ type c10Fault struct {
 
 var c10KeyKinds = []string{world.FaultError, world.FaultCtxDeadline, world.FaultNilRecord, world.FaultNoCert, world.FaultNoKey, world.FaultEmptyCert, world.FaultGarbageCert, world.FaultZeroKey, world.FaultMismatch}
 var c10ErrKinds = []string{world.FaultError, world.FaultCtxDeadline, world.FaultCtxCanceled}
+var c10UserKinds = []string{world.FaultError, world.FaultCtxDeadline, world.FaultCtxCanceled, world.FaultPartial}
 
 // soft kinds are not in the statement's list of failures (the answer is well-typed but useless): only the
 // no-panic / no-Success-assertion clauses apply to them.
@@ -60,6 +61,8 @@ func c10Kinds(op string) []string {
 		return c10KeyKinds
 	case "Done":
 		return nil
+	case "SetUserinfoWithUserID", "SetUserinfoWithLoginName":
+		return c10UserKinds
 	}
 	return c10ErrKinds
 }
@@ -290,7 +293,7 @@ func runC10(ctx Ctx) int {
 	world.PinClock()
 	run := ev.NewRun("C10")
 	run.Level = "fault_enumeration"
-	run.Rule = "for each of the endpoint scenarios (SSO x4, callback x {POST, Redirect} x {done, pending, unknown id} + unusable configured algorithms, logout, attribute query x2, metadata with signing off/on/unusable algorithm, certificate, ready, healthz) the fault-free run records the ordered storage call trace; every call occurrence x every applicable fault kind (returned error, context deadline / cancellation error; for the key getters: nil record, key without certificate, certificate without key, empty certificate, garbage certificate, zero key, certificate of another key) is injected singly, and for every run that continues past the fault every later call occurrence is faulted too (all pairs; thorough: triples); traces are re-recorded on every run. A case is distinct by (scenario, fault plan)"
+	run.Rule = "for each of the endpoint scenarios (SSO x4, callback x {POST, Redirect} x {done, pending, unknown id} + unusable configured algorithms, logout, attribute query x2, metadata with signing off/on/unusable algorithm, certificate, ready, healthz) the fault-free run records the ordered storage call trace; every call occurrence x every applicable fault kind (returned error, context deadline / cancellation error; user-info: error after some setters were already called; for the key getters: nil record, key without certificate, certificate without key, empty certificate, garbage certificate, zero key, certificate of another key) is injected singly, and for every run that continues past the fault every later call occurrence is faulted too (all pairs; thorough: triples); traces are re-recorded on every run. A case is distinct by (scenario, fault plan)"
 	run.Assume = []string{"garbage certificate bytes and a zero rsa.PrivateKey are outside the statement's list of failures: for them only the no-panic and no-usable-Success clauses are applied", "faults are injected at the storage interface only"}
 	scs := c10Scenarios()
 	byName := map[string]c10Scenario{}
